@@ -67,11 +67,15 @@ theorem C01_nextHit_is_first (B τ : List Addr) (i : Nat) (hi : i ≤ τ.length)
 /-! ## Hypotheses of the projection theorem -/
 
 /-- the user never sets a breakpoint at the ELF entry address: `add_and_enable` would replace the debugger's internal
-entry-point breakpoint there (same key), which the `continue_execution` loop never reports -/
+entry-point breakpoint there (same key), which the `continue_execution` loop never reports.
+(On the real debugger a user breakpoint needs a DWARF line-table place at its address — `PlaceNotFound` otherwise —
+which `_start` normally lacks; the model's `break` assumes the address has one, as all addresses used in the
+correspondence run do.  See `C01_continue_projection_counterexample_break_at_entry`.) -/
 def NoBreakAtEntry (entry : Addr) (ops : List Op) : Prop := ∀ op ∈ ops, op ≠ .brk entry
 
 /-- ... and never removes "the breakpoint at the entry address": `remove_by_addr` does not look at the kind, so it
-would answer `ok` and delete the internal entry-point breakpoint -/
+answers `ok` and deletes the internal entry-point breakpoint (reproduced on the real debugger; see
+`C01_continue_projection_counterexample_remove_at_entry`) -/
 def NoRemoveAtEntry (entry : Addr) (ops : List Op) : Prop := ∀ op ∈ ops, op ≠ .remove entry
 
 instance (entry ops) : Decidable (NoBreakAtEntry entry ops) := by unfold NoBreakAtEntry; infer_instance
